@@ -5,6 +5,19 @@
 QUIC = "QUIC transport is stubbed out in the harness build (quic-go v0.21.1 does not build with the sandbox toolchain); no property exercises it"
 
 CONFIG = {
+    "C03": {
+        "pkg": "c03",
+        "legs": [
+            {"run": "^TestAllocations$", "quick": (6000, 8), "thorough": (150000, 16)},
+        ],
+        "floors": {"allocations": {"nontrivial": 2000, "failed": 200, "entry:peerremove": 500, "entry:blockallocate": 500}},
+        "assumptions": [
+            QUIC,
+            "healthy = member of the peerset with a valid, unexpired metric under the informer's name (what the monitor reports); a healthy peer whose value is not numeric can be kept as current holder but cannot be ranked",
+            "metrics expire 1 h in the past or in the future, never near now",
+            "consensus is a harness fake over a real dsstate; the monitor is the real pubsubmon fed through LogMetric",
+        ],
+    },
     "C08": {
         "pkg": "c08",
         "regress": "^TestRegress",
